@@ -238,9 +238,10 @@ def random_tree(rng):
     cad = rng.choice([10, 10, 3600, 2])
     base_s -= base_s % cad if cad != 3600 else 0
     t = Tree(base_s)
-    layout = rng.choice(["root", "one", "two", "nested", "deep", "two"])
+    layout = rng.choice(["root", "one", "two", "nested", "deep", "two", "prefix"])
+    # "prefix": sibling channels where one name is a string prefix of the other (ch1 / ch10, rf / rf_meta)
     paths = {"root": [""], "one": ["chA"], "two": ["chA", "chB"], "nested": ["chA", "chA/metadata"],
-             "deep": ["grp/chA", "chB"]}[layout]
+             "deep": ["grp/chA", "chB"], "prefix": rng.choice([["ch1", "ch10"], ["rf", "rf_meta"], ["chA", "chAB"]])}[layout]
     for path in paths:
         ch = t.chan(path)
         ck = rng.choice(["drf", "dmd", "dmd", "legacy", "both", "none", "tmpprop"])
